@@ -115,6 +115,16 @@ class P(Prop):
                         sts2 = [list(r) for r in runs for _ in range(rng.randint(1, 3))]
                         reuse = False
                     case["later"].append({"sts": sts2, "reuse": reuse, "setter": rng.choice(["all", "each", None])})
+            # A, B, A with the setters alternating (all, each, all / each, all, each): the third setting re-applies the first
+            # matrix through the first setter after the other setter was used in between
+            if breakers and rng.random() < 0.12:
+                B = [[rng.random() < 0.5 for _ in breakers] for _ in range(len(sts))]
+                if B == sts:
+                    B[0][0] = not B[0][0]
+                first = rng.choice(["all", "each"])
+                other = "each" if first == "all" else "all"
+                case["setter"] = first
+                case["later"] = [{"sts": B, "reuse": False, "setter": other}, {"sts": [list(r) for r in sts], "reuse": False, "setter": first}]
             out.append(case)
         if tier == "thorough" and not override:
             out += self.exhaustive_small()
